@@ -193,7 +193,10 @@ fn run_case(cx: &CaseCtx, rep: &mut Report) {
 	if chain.iter().any(|f| matches!(f, Filter::BBox(..))) {
 		rep.count("chains_with_bbox", 1);
 	}
-	let vpl = format!("from_container filename=s.x | {}", chain.iter().map(|f| f.vpl(&mut rng)).collect::<Vec<_>>().join(" | "));
+	// the filters sit on the plain source or on a composed one (the same source listed twice: tile for tile the
+	// same content, but streamed block by block through the overlay)
+	let head = if rng.chance(0.25) { "from_overlayed [ from_container filename=s.x, from_container filename=s.x ]" } else { "from_container filename=s.x" };
+	let vpl = format!("{head} | {}", chain.iter().map(|f| f.vpl(&mut rng)).collect::<Vec<_>>().join(" | "));
 	cx.progress(&vpl);
 	let witness = |extra: serde_json::Value| json!({"vpl": vpl, "source": src_desc, "detail": extra});
 
